@@ -30,10 +30,15 @@ History (JSON-able list of macro steps):
   script = {aid: reply}; reply = ["o"] (204) | ["s", [[aid,iid,status],..]] (207) |
            ["d", fin|reset|malformed|nonutf8|silent] | ["x", code]  (HTTP 4xx); default ["o"]
 rmodes = {listener: 0 never raises | 1 always | 2 only on the empty event | 3 only on non-empty events}
-lacts  = {listener: [mode, [[add?, l'], ..]]}: what the listener does to the registry from inside its
+lacts  = {listener: [mode, [[add?, l'], ..], kind?]}: what the listener does to the registry from inside its
          callback when `mode` (as above) fires: add? true = dispatcher_connect(listener l'), false = the stop
          function of l' (l' may be the listener itself: a one-shot listener).  Targets of adds and of
          removals are disjoint within one table (the final registry is then independent of call order).
+         kind (optional third element, default "fn") = what sort of Python callable the listener is:
+         fn (closure) | lambda | method (bound method) | partial (functools.partial) | callable (instance with
+         __call__) | builtin (C callable `list.append` recording the raw events; never raises / re-enters) |
+         builtin_raise (C callable `{}.__getitem__`: raises TypeError on every event dict; its own log cannot be
+         observed and is not compared).  partial / callable objects have no __name__ / __qualname__.
 """
 from __future__ import annotations
 
@@ -140,18 +145,56 @@ def run_impl(hist, rmodes, lacts=None):
 
     cbs, stops, pref = {}, {}, []
 
+    rawlogs = {}
+
+    def body(l, ev):
+        state["step"]["calls"].append([l, canon_event(ev)])
+        v = lacts.get(l, [0, []])
+        if fires(v[0], ev):
+            for add, l2 in v[1]:
+                if add:
+                    stops[l2] = pref[0].dispatcher_connect(listener(l2))
+                elif l2 in stops:
+                    stops[l2]()
+        if fires(rmodes.get(l, 0), ev):
+            raise ValueError(f"listener {l} raises")
+
+    class Holder:
+        def __init__(self, l):
+            self.l = l
+
+        def on_event(self, ev):
+            body(self.l, ev)
+
+    class CallableObj:
+        __slots__ = ("l",)
+
+        def __init__(self, l):
+            self.l = l
+
+        def __call__(self, ev):
+            body(self.l, ev)
+
     def mk_listener(l):
+        v = lacts.get(l, [0, []])
+        kind = v[2] if len(v) > 2 else "fn"
+        if kind == "lambda":
+            return lambda ev: body(l, ev)
+        if kind == "method":
+            return Holder(l).on_event
+        if kind == "partial":
+            import functools
+            return functools.partial(body, l)
+        if kind == "callable":
+            return CallableObj(l)
+        if kind == "builtin":
+            rawlogs[l] = []
+            return rawlogs[l].append
+        if kind == "builtin_raise":
+            return {}.__getitem__
+
         def cb(ev):
-            state["step"]["calls"].append([l, canon_event(ev)])
-            mode, acts = lacts.get(l, [0, []])
-            if fires(mode, ev):
-                for add, l2 in acts:
-                    if add:
-                        stops[l2] = pref[0].dispatcher_connect(listener(l2))
-                    elif l2 in stops:
-                        stops[l2]()
-            if fires(rmodes.get(l, 0), ev):
-                raise ValueError(f"listener {l} raises")
+            body(l, ev)
         return cb
 
     def listener(l):
@@ -269,6 +312,9 @@ def run_impl(hist, rmodes, lacts=None):
                             ep.tr.peer_send(ct[a:b])
                         await vloop.sleep_ticks(1)
                         st["closing_after"] = bool(ep.tr.is_closing())
+                for l, raw in rawlogs.items():
+                    st["calls"] += [[l, canon_event(ev)] for ev in raw]
+                    del raw[:]
                 st["sess"] = len(sessions) > nsess
                 st["nsess"] = len(sessions) - nsess
                 st["connected"] = bool(p.is_connected)
@@ -341,8 +387,8 @@ def model_events(item):
 
 def model_line(hist, rmodes, lacts=None):
     r = ",".join(f"{int(l)}={m}" for l, m in sorted(rmodes.items())) or "-"
-    t = ",".join(f"{int(l)}={m}" + "".join(("/+" if add else "/-") + str(l2) for add, l2 in acts)
-                 for l, (m, acts) in sorted((lacts or {}).items())) or "-"
+    t = ",".join(f"{int(l)}={v[0]}" + "".join(("/+" if add else "/-") + str(l2) for add, l2 in v[1])
+                 for l, v in sorted((lacts or {}).items())) or "-"
     return "run R:" + r + " T:" + t + " " + " ".join(t for item in hist for t in model_events(item))
 
 
@@ -389,6 +435,11 @@ def parse_model(ans, hist):
 # =============================================================================================
 # comparison model <-> implementation (only what the property constrains)
 # =============================================================================================
+def unobservable(lacts):
+    """listeners whose own call log cannot be recorded (C callable that only raises)"""
+    return {int(l) for l, v in (lacts or {}).items() if len(v) > 2 and v[2] == "builtin_raise"}
+
+
 def listeners_of(hist, rmodes, lacts=None):
     return sorted({it[1] for it in hist if it[0] in ("A", "D")} | {int(k) for k in rmodes}
                   | {int(k) for k in (lacts or {})} | {l2 for v in (lacts or {}).values() for _, l2 in v[1]})
@@ -397,7 +448,7 @@ def listeners_of(hist, rmodes, lacts=None):
 def compare(hist, rmodes, model, impl, lacts=None):
     """-> list of (step index, field, text)"""
     diffs = []
-    lids = listeners_of(hist, rmodes, lacts)
+    lids = [l for l in listeners_of(hist, rmodes, lacts) if l not in unobservable(lacts)]
     nsess = 0
     for i, (item, m, o) in enumerate(zip(hist, model, impl["steps"])):
         k = item[0]
@@ -460,12 +511,13 @@ def oracle(hist, rmodes, impl, lacts=None):
     bad = []
     lacts = {int(k): v for k, v in (lacts or {}).items()}
     wanted, registered, cutoff, live = set(), set(), False, False
+    unobs = unobservable(lacts)
 
     def delivered(ev):
         """registry changes the listeners registered when `ev` arrives make from inside their callbacks"""
         adds, dels = set(), set()
         for l in registered:
-            mode, acts = lacts.get(l, [0, []])
+            mode, acts = lacts.get(l, [0, []])[:2]
             if fires(mode, ev):
                 adds |= {l2 for add, l2 in acts if add}
                 dels |= {l2 for add, l2 in acts if not add}
@@ -491,7 +543,7 @@ def oracle(hist, rmodes, impl, lacts=None):
         if k in ("CU", "SW") and o["sess"]:
             live = True
             reentrant = any(fires(lacts.get(l, [0, []])[0], {}) and lacts[l][1] for l in registered)
-            for l in sorted(registered):
+            for l in sorted(registered - unobs):
                 if by.get(l, []) != [[]]:
                     bad.append(("connup:listener-not-notified" + (":reentrant-registry-change" if reentrant else ""),
                                 f"listener {l} got {by.get(l, [])} instead of exactly one "
@@ -525,7 +577,7 @@ def oracle(hist, rmodes, impl, lacts=None):
                 delivered(ev)
             other_error = o["errors"] and not any("Set changed size" in e for e in o.get("error_kinds", []))
             tag = ":reentrant-registry-change" if (reentrant and not other_error) else ""
-            for l in sorted(set(exp) | set(by)):
+            for l in sorted((set(exp) | set(by)) - unobs):
                 if by.get(l, []) != exp.get(l, []):
                     bad.append(("event:listener-log" + tag, f"listener {l} got {by.get(l, [])}, but the messages that arrived "
                                 f"while it was registered are {exp.get(l, [])}", idx))
@@ -569,7 +621,14 @@ def gen_exhaustive(depth):
                 ({}, {"1": [3, [[False, 1]]]}),                        # one-shot listener (real events)
                 ({"2": 1}, {"2": [1, [[False, 2], [True, 3]]]}),       # raises, removes itself, registers 3
                 ({}, {"1": [2, [[False, 2]]]}),                        # on connection-back 1 removes 2
-                ({"1": 3}, {"2": [3, [[True, 4]]]})]
+                ({"1": 3}, {"2": [3, [[True, 4]]]}),
+                # the same behaviours carried by other kinds of Python callables
+                ({"2": 1}, {"2": [0, [], "partial"], "1": [0, [], "lambda"]}),
+                ({"1": 1}, {"1": [0, [], "callable"], "2": [0, [], "method"]}),
+                ({"2": 3}, {"2": [3, [[False, 2]], "callable"], "1": [0, [], "builtin"]}),
+                ({"2": 1}, {"2": [0, [], "builtin_raise"], "1": [0, [], "partial"]}),
+                ({"1": 2}, {"1": [2, [[True, 3]], "partial"], "2": [0, [], "callable"]}),
+                ({"2": 1}, {"2": [0, [], "method"], "1": [3, [[False, 1]], "lambda"]})]
     n = 0
     for k in range(depth + 1):
         for seq in itertools.product(range(len(B)), repeat=k):
@@ -642,6 +701,28 @@ def gen_bursts(tier):
             n += 1
 
 
+KINDS = ["fn", "lambda", "method", "partial", "callable", "builtin", "builtin_raise"]
+
+
+def gen_kinds():
+    """Every kind of callable as listener 2 (between two plain listeners), x never / always / only-on-connection-back /
+    only-on-real-events raising x re-entrant (removes itself, registers 4) or not; sessions, events, a reconnect."""
+    for kind in KINDS:
+        for rmode in (0, 1, 2, 3):
+            for reent in (None, [3, [[False, 2], [True, 4]]], [2, [[False, 2]]]):
+                if kind == "builtin" and (rmode or reent):
+                    continue
+                if kind == "builtin_raise" and (rmode != 1 or reent):
+                    continue
+                for k1, k3 in (("fn", "fn"), ("callable", "partial")):
+                    la = {"2": (reent or [0, []]) + [kind], "1": [0, [], k1], "3": [0, [], k3]}
+                    rm = {"2": rmode} if rmode else {}
+                    hist = [["A", 1], ["A", 2], ["A", 3], ["S", [[1, 2], [2, 2]], {}, {}], ["CU", {}],
+                            ["EB", [["b", [[1, 2, 7]]], "e", ["b", [[2, 2, 8], [1, 2, 9]]]], [0.4], {"per_msg": True}],
+                            ["CD", "reset"], ["CU", {}], ["EB", [["b", [[1, 3, 1]]]], []]]
+                    yield hist + PROBE, rm, la
+
+
 def rand_script(r):
     if r.random() < 0.6:
         return {}
@@ -696,6 +777,19 @@ def gen_random(r, n):
                        [[True, t] for t in r.sample([3, 4], r.choice([0, 0, 1]))]
                 if acts:
                     la[str(l)] = [r.choice([1, 2, 3, 3]), acts]
+        if r.random() < 0.5:
+            for l in (1, 2, 3, 4):
+                if r.random() < 0.6:
+                    kind = r.choice(KINDS)
+                    cur = la.get(str(l), [0, []])
+                    if kind == "builtin" and (str(l) in rm or cur[1]):
+                        kind = "callable"
+                    if kind == "builtin_raise":
+                        if cur[1]:
+                            kind = "partial"
+                        else:
+                            rm[str(l)] = 1
+                    la[str(l)] = cur[:2] + [kind]
         hist, up = [], False
         for _ in range(r.choice([3, 5, 8, 12, 20])):
             x = r.random()
@@ -734,6 +828,239 @@ def gen_random(r, n):
                 if any(v[0] == "d" for v in rs.values()):
                     up = False if r.random() < 0.8 else up
         yield hist + PROBE, rm, la
+
+
+# =============================================================================================
+# kernel cross-check of the extracted driver (extraction + ocaml/drv*.ml out of the trusted base)
+# =============================================================================================
+XC_PRELUDE = r"""From Coq Require Import List NArith ZArith Bool.
+From AHK Require Import Model.Subs.
+Import ListNotations.
+Definition x_zl {A : Type} (l : list A) : Z := Z.of_nat (length l).
+Definition x_zb (b : bool) : Z := if b then 1%Z else 0%Z.
+Definition show_ids (l : list cid) : list Z := x_zl l :: flat_map (fun c => [Z.of_N (fst c); Z.of_N (snd c)]) l.
+Definition show_rows (l : list (cid * Z)) : list Z :=
+  x_zl l :: flat_map (fun r => [Z.of_N (fst (fst r)); Z.of_N (snd (fst r)); snd r]) l.
+Definition show_out (x : out) : list Z :=
+  match x with
+  | OSession => [0%Z]
+  | OPut ev ids r => [1%Z; x_zb ev] ++ show_ids ids ++
+                     [match r with PutOk => 0%Z | PutStatus _ => 1%Z | PutDisc => 2%Z | Put4xx => 3%Z end]
+  | OCall l e => [2%Z; Z.of_N l] ++ show_rows e
+  | ORaised l => [3%Z; Z.of_N l]
+  | OLost => [4%Z]
+  | ORet r => [5%Z; match r with RetNone => 0%Z | RetDict => 1%Z | RetRaised => 2%Z end]
+  end.
+Definition show_outs (o : list out) : list Z := x_zl o :: flat_map show_out o.
+Definition show_st (s : st) : list Z :=
+  show_ids (subs s) ++ (x_zl (lst s) :: map Z.of_N (lst s)) ++ [x_zb (sup s); x_zb (conn s)].
+Definition x_fires (m : N) (e : fevent) : bool :=
+  match m, e with
+  | 1%N, _ => true
+  | 2%N, [] => true
+  | 3%N, _ :: _ => true
+  | _, _ => false
+  end.
+Definition x_raises (tbl : list (N * N)) (l : lid) (e : fevent) : bool :=
+  match find (fun p => N.eqb (fst p) l) tbl with Some p => x_fires (snd p) e | None => false end.
+Definition x_acts (tbl : list (N * (N * list (bool * lid)))) (l : lid) (e : fevent) : list (bool * lid) :=
+  match find (fun p => N.eqb (fst p) l) tbl with
+  | Some p => if x_fires (fst (snd p)) e then snd (snd p) else []
+  | None => []
+  end.
+(* what the driver prints: outputs of [step] and the state after it, step by step ... *)
+Fixpoint show_fold (r : lid -> fevent -> bool) (a : lid -> fevent -> list (bool * lid)) (s : st) (h : list event) : list Z :=
+  match h with
+  | [] => []
+  | e :: t => let '(s1, o) := step r a s e in show_outs o ++ show_st s1 ++ show_fold r a s1 t
+  end.
+(* ... which it cross-checks against the model's own [trace_from] *)
+Definition show_run (r : lid -> fevent -> bool) (a : lid -> fevent -> list (bool * lid)) (h : list event) : list Z :=
+  let '(os, sf) := trace_from r a init h in
+  (x_zl h :: show_fold r a init h) ++ (x_zl os :: flat_map show_outs os) ++ show_st sf.
+"""
+
+
+def _gn(t):
+    return f"{int(t)}%N"
+
+
+def _gz(t):
+    v = int(t)
+    return f"({v})%Z" if v < 0 else f"{v}%Z"
+
+
+def _glist(xs):
+    return "[" + "; ".join(xs) + "]"
+
+
+def _gcid(t):
+    a, i = t.split(".")
+    return f"({_gn(a)}, {_gn(i)})"
+
+
+def _gids(t):
+    return _glist([] if t in ("-", "") else [_gcid(c) for c in t.split(",")])
+
+
+def _grow(t):
+    a, i, v = t.split(".")
+    return f"(({_gn(a)}, {_gn(i)}), {_gz(v)})"
+
+
+def _gscript(t):
+    out = []
+    for e in ([] if t in ("-", "") else t.split(";")):
+        a, r = e.split("=")
+        f = r.split("/")
+        rep = {"o": "ROk", "d": "RDisc", "x": "RHttp4xx"}[f[0]] if f[0] != "s" else "RStatus " + _glist([_grow(x) for x in f[1:]])
+        if f[0] != "s" and len(f) != 1:
+            raise ValueError(t)
+        out.append(f"({_gn(a)}, {rep})")
+    return _glist(out)
+
+
+def _gevent(t):
+    f = t.split(":")
+    if f[0] in ("S", "U") and len(f) == 3:
+        return f"{'Subscribe' if f[0] == 'S' else 'Unsubscribe'} {_gids(f[1])} {_gscript(f[2])}"
+    if f[0] in ("A", "D") and len(f) == 2:
+        return f"{'AddL' if f[0] == 'A' else 'DelL'} {_gn(f[1])}"
+    if f[0] == "CU" and len(f) == 2:
+        return f"ConnUp {_gscript(f[1])}"
+    if f == ["CD"]:
+        return "ConnDown"
+    if f[0] == "E" and len(f) == 2:
+        if f[1] in ("e", "n"):
+            return "EventMsg " + ("BEmpty" if f[1] == "e" else "BNonJson")
+        b = f[1].split("/")
+        if b[0] == "b":
+            return "EventMsg (BRows " + _glist([_grow(x) for x in b[1:]]) + ")"
+    raise ValueError(t)
+
+
+def coq_request(line):
+    """The request line of the driver as the Gallina term the driver evaluates (rendered from the line itself)."""
+    tok = line.split(" ")
+    if tok[0] != "run" or not tok[1].startswith("R:") or not tok[2].startswith("T:"):
+        raise ValueError(line[:80])
+    r, t = tok[1][2:], tok[2][2:]
+    rt = []
+    for e in ([] if r in ("-", "") else r.split(",")):
+        a, m = e.split("=")
+        rt.append(f"({_gn(a)}, {_gn(m)})")
+    tt = []
+    for e in ([] if t in ("-", "") else t.split(",")):
+        a, rest = e.split("=")
+        f = rest.split("/")
+        acts = [f"({'true' if x[0] == '+' else 'false'}, {_gn(x[1:])})" for x in f[1:]]
+        tt.append(f"({_gn(a)}, ({_gn(f[0])}, {_glist(acts)}))")
+    evs = ["(" + _gevent(x) + ")" for x in tok[3:]]
+    return f"show_run (x_raises {_glist(rt)}) (x_acts {_glist(tt)}) {_glist(evs)}"
+
+
+def flat_answer(ans):
+    """The same list of integers as show_run, computed from the line the driver printed."""
+    def ids(t):
+        cs = parse_ids(t)
+        return [len(cs)] + [x for c in cs for x in c]
+
+    def outs(t):
+        toks = [] if t == "." else t.split(" ")
+        res = [len(toks)]
+        for o in toks:
+            f = o.split(":")
+            if o == "SESS":
+                res += [0]
+            elif f[0] == "P":
+                res += [1, {"t": 1, "f": 0}[f[1]]] + ids(f[2]) + [{"o": 0, "s": 1, "d": 2, "x": 3}[f[3]]]
+            elif f[0] == "C":
+                rows = [] if f[2] == "-" else [[int(x) for x in r.split(".")] for r in f[2].split("/")]
+                res += [2, int(f[1]), len(rows)] + [x for r in rows for x in r]
+            elif f[0] == "X":
+                res += [3, int(f[1])]
+            elif o == "LOST":
+                res += [4]
+            elif f[0] == "R":
+                res += [5, {"none": 0, "dict": 1, "raised": 2}[f[1]]]
+            else:
+                raise ValueError(o)
+        return res
+
+    def state(t):
+        sf = t.split(" ")
+        ls = [] if sf[1] == "-" else [int(x) for x in sf[1].split(",")]
+        return ids(sf[0]) + [len(ls)] + ls + [int(sf[2]), int(sf[3])]
+    raw = [p.split(" @ ") for p in ans.split(" | ")] if ans else []
+    fold, tr = [len(raw)], [len(raw)]
+    for o, s in raw:
+        fold += outs(o) + state(s)
+        tr += outs(o)
+    return fold + tr + (state(raw[-1][1]) if raw else [0, 0, 1, 0])
+
+
+def xc_features(line, ans):
+    tok = line.split(" ")
+    fs = set()
+    for m in tok[1][2:].split(","):
+        if "=" in m:
+            fs.add("R" + m.split("=")[1])
+    for e in tok[2][2:].split(","):
+        if "=" in e:
+            fs.add("Tm" + e.split("=")[1].split("/")[0])
+            fs |= {"T" + x[0] for x in e.split("/")[1:]}
+    for t in tok[3:]:
+        f = t.split(":")
+        fs.add("ev:" + (f[0] if f[0] != "E" else "E" + f[1][0]))
+        if f[0] == "E" and f[1].count("/") > 30:
+            fs.add("ev:Ebig")
+        fs |= {"reply:" + e.split("=")[1][0] for e in f[-1].split(";") if f[0] in ("S", "U", "CU") and "=" in e}
+    for p in ans.split(" | "):
+        for o in p.split(" @ ")[0].split(" "):
+            f = o.split(":")
+            fs.add("out:" + (f"P:{f[1]}:{f[3]}" if f[0] == "P" else (o if f[0] == "R" else f[0])))
+    return fs
+
+
+def xc_sample(lines, answers, want=24):
+    """Deterministic sample of the run's real requests: the shortest request showing each request feature (every
+    event kind, reply kind, listener table mode, output kind) first, then evenly spaced short requests."""
+    order = sorted(range(len(lines)), key=lambda i: (len(lines[i]), i))
+    seen, picked = set(), []
+    for i in order:
+        if "driver-" in answers[i] or answers[i] == "bad-request":
+            continue
+        fs = xc_features(lines[i], answers[i])
+        if not fs <= seen and len(picked) < want:
+            seen |= fs
+            picked.append(i)
+    short = [i for i in range(len(lines)) if len(lines[i]) <= 400 and i not in set(picked)]
+    need = max(0, want - len(picked))
+    if short and need:
+        stepk = max(1, len(short) // need)
+        picked += short[stepk // 2::stepk][:need]
+    return [(lines[i], answers[i]) for i in sorted(set(picked))], sorted(seen)
+
+
+def vm_crosscheck(ctx, sample):
+    """Evaluate sampled (request line, driver answer) pairs with vm_compute inside Coq - the same [step] fold and
+    [trace_from] the driver calls, on terms rendered from the request lines - and compare the complete structured
+    content (every output of every step and every state) with what the extracted OCaml driver printed."""
+    import re
+    from common import coq_eval
+    body = [XC_PRELUDE] + [f"Eval vm_compute in ({coq_request(line)})." for line, _ in sample]
+    out = coq_eval(ctx["verif"], "C12", "crosscheck", "\n".join(body) + "\n", timeout=120)
+    blocks = out.split("= ")[1:]
+    bad = []
+    for k, (line, ans) in enumerate(sample):
+        got = [int(x) for x in re.findall(r"-?\d+", blocks[k].rsplit(":", 1)[0])] if k < len(blocks) else None
+        try:
+            want = flat_answer(ans)
+        except Exception:  # noqa  (an answer that is not in the driver's grammar)
+            want = "unparsable"
+        if got != want:
+            bad.append(dict(request=line, driver=ans, vm_compute=got, driver_flat=want))
+    return len(sample), bad
 
 
 # =============================================================================================
@@ -778,6 +1105,8 @@ def run(ctx):
         n_ex = len(cases)
         cases += list(gen_bursts(tier))
         n_burst = len(cases) - n_ex
+        cases += list(gen_kinds())
+        n_kinds = len(cases) - n_ex - n_burst
         cases += list(gen_random(rng(seed, "c12rand"), nrand))
         cp = os.path.join(ctx["verif"], "harness", "corpus", "C12.json")
         for item in (json.load(open(cp)) if os.path.exists(cp) else []):
@@ -795,7 +1124,11 @@ def run(ctx):
             "3 messages in 48-byte frames, one 1.9 kB event in two 1024-byte frames, the same between two small events) "
             "with the reads cut at every byte position (stride for the 1.9 kB ones in the quick tier) and at every "
             "structural position (frame boundary, inside the length prefix, after it, inside the data, start/inside/end "
-            "of the tag), plus two-cut combinations of structural positions")
+            "of the tag), plus two-cut combinations of structural positions; "
+            f"plus {n_kinds} listener-kind histories: listener 2 as each of 7 kinds of Python callable (closure, lambda, "
+            "bound method, functools.partial, instance with __call__, C callable recording / C callable raising) x "
+            "never/always/connection-back-only/real-events-only raising x re-entrant or not, between plain or "
+            "partial/callable-object neighbours; the 14 behaviour tables of the main stream also vary the kind")
     lines = [model_line(h, ints(rm), ints(la)) for h, rm, la in cases]
     answers = drv.batch(lines)
     if tier == "thorough" and len(cases) > 5000:
@@ -822,7 +1155,9 @@ def run(ctx):
                  cutoffs=",".join(sorted({p[2] + ("t" if p[0] else "f") for o in impl["steps"] for p in o["puts"]
                                           if p[2] in ("d", "x")})) or "none",
                  raising=",".join(f"{k}:{v}" for k, v in sorted(rm.items())) or "none",
-                 reentrant=",".join(f"{k}:{v[0]}" for k, v in sorted(la.items())) or "none",
+                 reentrant=",".join(f"{k}:{v[0]}" for k, v in sorted(la.items()) if v[1]) or "none",
+                 listener_kinds=",".join(sorted({v[2] for v in la.values() if len(v) > 2})) or "fn",
+                 raising_kinds=",".join(sorted({(la.get(k, [0, [], "fn"]) + ["fn"])[2] for k in rm})) or "none",
                  event_msgs=sum(len(it[1]) for it in hist if it[0] == "EB"),
                  event_frames=max([len(frame_layout(it[1], it[3] if len(it) > 3 else {})) for it in hist if it[0] == "EB"]),
                  event_reads=max([o.get("reads", 0) for o in impl["steps"]]))
@@ -869,6 +1204,14 @@ def run(ctx):
                                        False, history=small, rmodes=rm, lacts=la, original_history=hist,
                                        diffs=[list(x) for x in (d2 or diffs)[:6]], impl=o2["steps"], model=ans2,
                                        broken="correspondence Model/Subs.v <-> aiohomekit/controller/ip/pairing.py, abstract.py"))
+    if not ctx.get("replay"):
+        xs, xfeat = xc_sample(lines, answers)
+        nx, xbad = vm_crosscheck(ctx, xs)
+        cov.extra["vm_compute_crosscheck"] = dict(requests=nx, disagreements=len(xbad), features_covered=xfeat)
+        if xbad:
+            viols.append(violation("extraction-vs-vm_compute", f"{len(xbad)} of {nx} sampled requests: extracted driver and "
+                                   "vm_compute of Model/Subs.v disagree", False, disagreements=xbad[:3],
+                                   broken="extraction / ocaml/drv_c12.ml glue"))
     cov.extra["model_output_kinds_seen"] = dict(kinds_seen)
     cov.extra["reconnect_nudges_design_6o"] = nudges
     cov.extra["domain"] = ("replies to PUT /characteristics: 204, 207 with status rows, HTTP 4xx, or a cut-off (FIN, RST, "
